@@ -49,6 +49,13 @@ def main():
             meta["note"] = "patch does not apply on the current /repo HEAD: " + o[-500:]
             raise SystemExit
         sh(["git", "reset", "-q"], cwd=wt)
+        # the patch as it applies to the current HEAD (a 3-way apply may have shifted or merged hunks)
+        eff = sh("git diff -- . ':(exclude)SEED'", cwd=wt)[1]
+        if eff.strip() and eff.strip() != open(patch).read().strip():
+            effp = f"/tmp/sv-eff-{tag}.diff"
+            open(effp, "w").write(eff)
+            meta["patch_rebased"] = "patch.diff is the author's change re-applied (git apply --3way) on /repo HEAD %s; the author's file is patch.original.diff" % base
+            orig_patch, patch = patch, effp
         files = [l.split()[-1] for l in sh(["git", "status", "--short"], cwd=wt)[1].splitlines() if l.strip() and not l.strip().endswith("SEED/")]
         meta["touched"] = files
         rc, o = sh("go build ./...", cwd=wt)
@@ -127,8 +134,13 @@ def main():
         meta["history"].append({c: dict(detected=v.get("detected"), tier=v.get("tier")) for c, v in meta["checks"].items()} | {"verif_commit": meta["verif_commit"]})
     for f in os.listdir(src):
         p = os.path.join(src, f)
-        if os.path.isfile(p) and (f.endswith(".go") or f in ("patch.diff", "meta.txt")):
+        if os.path.isfile(p) and (f.endswith(".go") or f in ("patch.diff", "meta.txt", "patch.original.diff")):
             shutil.copy(p, os.path.join(out_dir, f))
+    if meta.get("patch_rebased") and os.path.exists(patch):
+        if not os.path.exists(os.path.join(out_dir, "patch.original.diff")):
+            shutil.copy(os.path.join(src, "patch.diff"), os.path.join(out_dir, "patch.original.diff"))
+        shutil.copy(patch, os.path.join(out_dir, "patch.diff"))
+        os.remove(patch)
     json.dump(meta, open(os.path.join(out_dir, "meta.json"), "w"), indent=1)
     det = {k: v["detected"] for k, v in meta.get("checks", {}).items()}
     print(f"{pid}-{x}: verified={meta['verified']} suite_ok={meta.get('suite_passes_with_change')} demo_with_fails={meta.get('demo_fails_with_change')} demo_without_passes={meta.get('demo_passes_without_change')} detected={det} {meta.get('note', '')[:200]}")
